@@ -62,6 +62,10 @@ fn hook(name: &'static str, arg: u64) {
     if tid == usize::MAX {
         return;
     }
+    if name == "resize.after_remap" {
+        // still inside the map write lock and the map-handle mutex: never park here
+        return;
+    }
     if let Some(s) = sched() {
         s.point(tid, name, arg);
     }
@@ -100,6 +104,9 @@ impl Sched {
             _ => Want::Nothing,
         };
         st.events.push(format!("{}:{}:{}", tid, name, arg));
+        if std::env::var("JH_CONC_TRACE").is_ok() {
+            eprintln!("{}:{}:{}", tid, name, arg);
+        }
         st.parked[tid] = Some((name.to_string(), arg, want));
         st.current = None;
         self.cv.notify_all();
@@ -147,7 +154,12 @@ impl Sched {
                 st = self.cv.wait(st).unwrap();
                 continue;
             }
-            let en: Vec<usize> = (0..st.nthreads).filter(|t| self.enabled(&st, *t)).collect();
+            let mut en: Vec<usize> = (0..st.nthreads).filter(|t| self.enabled(&st, *t)).collect();
+            if en.is_empty() {
+                // a reader that is only waiting (in its script) for more commits gives up waiting when
+                // nothing else can run: that wait is part of the test program, not of the database
+                en = (0..st.nthreads).filter(|t| matches!(st.parked[*t].as_ref().map(|p| p.2), Some(Want::Commits(_)))).collect();
+            }
             if en.is_empty() {
                 let blocked: Vec<String> = (0..st.nthreads)
                     .filter(|t| !st.finished[*t])
